@@ -10,6 +10,7 @@ import (
 	"bytes"
 	"fmt"
 	"os"
+	"path"
 	"path/filepath"
 	"sort"
 	"strings"
@@ -58,8 +59,21 @@ func c13Scenario(c *Ctx, idx int, r *Rng, extra func(l, m, cs string)) (mline, m
 	if exclude != "" {
 		w.git("config", "lfs.fetchexclude", exclude)
 	}
-	nested := r.Chance(8) // the D21 variant: a nested .gitattributes
-	w.write(".gitattributes", []byte("*.bin filter=lfs diff=lfs merge=lfs -text\n*.dat filter=lfs -text\n"))
+	// how the attributes are spelt.  nested: a slash-less pattern in sub/.gitattributes and a file two levels
+	// below it (D70, repaired).  lockline: a later line that gives a tracked file the `lockable` attribute only
+	// (D71, repaired).  override: a file taken out of LFS by one line and put back by a later one — Git lets the
+	// LAST matching line decide, fsck's include/exclude lists let the exclusion win (D21, known)
+	attrVariant := Pick(r, []string{"plain", "plain", "plain", "plain", "plain", "plain", "plain", "nested", "nested", "lockline", "override"})
+	nested, override := attrVariant == "nested", attrVariant == "override"
+	rootAttrs := "*.bin filter=lfs diff=lfs merge=lfs -text\n*.dat filter=lfs -text\n"
+	switch attrVariant {
+	case "lockline":
+		rootAttrs += "d.dat lockable\ndir/*.bin lockable\n"
+	case "override":
+		rootAttrs += "f.bin -filter\nf.bin filter=lfs -text\n"
+	}
+	c.R.Count("fsck.attrs." + attrVariant)
+	w.write(".gitattributes", []byte(rootAttrs))
 	if nested {
 		w.write("sub/.gitattributes", []byte("*.raw filter=lfs -text\n"))
 	}
@@ -301,6 +315,7 @@ func c13Scenario(c *Ctx, idx int, r *Rng, extra func(l, m, cs string)) (mline, m
 	}
 	var tracked []trExp
 	seenTr := map[string]bool{}
+	noncanonElsewhere := map[string]bool{} // non-canonical pointers found at a path other than f.bin (the D21 `override` path)
 	untrackedNoncanon := map[string]bool{} // oids of non-canonical pointers committed at the untracked path
 	baseSnap := map[string]*c13File{}
 	if rangeNew {
@@ -349,6 +364,9 @@ func c13Scenario(c *Ctx, idx int, r *Rng, extra func(l, m, cs string)) (mline, m
 				tracked = append(tracked, trExp{f.oid, "c"})
 			case "noncanon":
 				tracked = append(tracked, trExp{f.oid, "n"})
+				if f.path != "f.bin" {
+					noncanonElsewhere[f.oid] = true
+				}
 			case "raw":
 				tracked = append(tracked, trExp{f.path, "r"})
 			}
@@ -361,7 +379,7 @@ func c13Scenario(c *Ctx, idx int, r *Rng, extra func(l, m, cs string)) (mline, m
 	out, code := w.runLfs(append(append([]string{"fsck"}, flags...), revArgs...)...)
 	after := c13Snapshot(w.dir)
 	log("git lfs fsck %s %s -> %d", strings.Join(flags, " "), strings.Join(revArgs, " "), code)
-	enc := fmt.Sprintf("C13 scen seed=%d idx=%d exclude=%s nested=%v steps=%s", c.Seed, idx, exclude, nested, strings.Join(steps, " ; "))
+	enc := fmt.Sprintf("C13 scen seed=%d idx=%d exclude=%s attrs=%s steps=%s", c.Seed, idx, exclude, attrVariant, strings.Join(steps, " ; "))
 	c.R.Eval(enc, len(steps) > 1)
 	c.R.Count("fsck." + revMode)
 	fail := func(what, impl, sig string) {
@@ -423,16 +441,18 @@ func c13Scenario(c *Ctx, idx int, r *Rng, extra func(l, m, cs string)) (mline, m
 			}
 			attr := checkAttr(w.dir, []string{path})[path]
 			if attr != "lfs" {
+				c13AttrTie(c, enc, path, rootAttrs, nested, false, named(ptrLines, "\""+path+"\"") || named(ptrLines, path))
 				continue
 			}
 			expectFail = true // lfs.fetchexclude excuses missing OBJECTS; a tracked path holding raw content is still reported
+			c13AttrTie(c, enc, path, rootAttrs, nested, true, named(ptrLines, "\""+path+"\"") || named(ptrLines, path))
 			onlySharedExpected = false
-			if !strings.HasPrefix(path, "sub/deep/") {
+			if !(override && path == "f.bin") {
 				onlyNestedExpected = false
 			}
 			if !named(ptrLines, "\""+path+"\"") && !named(ptrLines, path) {
 				sig := ""
-				if strings.HasPrefix(path, "sub/deep/") {
+				if override && path == "f.bin" {
 					sig = "D21"
 				}
 				fail("fsck --pointers did not name a tracked path that holds raw content instead of a pointer", path+" | "+clip(out, 300), sig)
@@ -442,10 +462,17 @@ func c13Scenario(c *Ctx, idx int, r *Rng, extra func(l, m, cs string)) (mline, m
 			if t.kind == "n" {
 				// find its path for the exclusion test
 				expectFail = true
-				onlyNestedExpected = false
+				d21 := override && !noncanonElsewhere[t.id]
+				if !d21 {
+					onlyNestedExpected = false
+				}
 				onlySharedExpected = false
 				if !named(ptrLines, t.id) {
-					fail("fsck --pointers did not name a non-canonical pointer", t.id[:12]+" | "+clip(out, 300), "")
+					sig := ""
+					if d21 {
+						sig = "D21"
+					}
+					fail("fsck --pointers did not name a non-canonical pointer", t.id[:12]+" | "+clip(out, 300), sig)
 				}
 			}
 			if t.kind == "c" && t.id != "" && named(ptrLines, t.id) {
@@ -482,7 +509,7 @@ func c13Scenario(c *Ctx, idx int, r *Rng, extra func(l, m, cs string)) (mline, m
 	}
 	if expectFail && code == 0 {
 		sig := ""
-		if nested && onlyNestedExpected {
+		if override && onlyNestedExpected {
 			sig = "D21"
 		}
 		if onlySharedExpected && len(d49) > 0 {
@@ -490,7 +517,7 @@ func c13Scenario(c *Ctx, idx int, r *Rng, extra func(l, m, cs string)) (mline, m
 		}
 		fail("fsck exited 0 although the checked revisions have damaged objects or bad pointers", clip(out, 300), sig)
 	}
-	if !expectFail && code != 0 && !(nested) {
+	if !expectFail && code != 0 {
 		fail("fsck failed although every referenced object is intact and every tracked file is a canonical pointer", clip(out, 400), "")
 	}
 	// moves and untouched objects
@@ -646,7 +673,7 @@ func c13Scenario(c *Ctx, idx int, r *Rng, extra func(l, m, cs string)) (mline, m
 					sharedBad = true
 				}
 			}
-			if !nested && !sharedBad {
+			if !override && !sharedBad {
 				isAgain := map[string]bool{}
 				for _, o := range again {
 					isAgain[o] = true
@@ -705,7 +732,7 @@ func c13Scenario(c *Ctx, idx int, r *Rng, extra func(l, m, cs string)) (mline, m
 		}
 		rp = append(rp, fmt.Sprintf("%d:%s:%s", id(rf.oid), z, rf.state[:1]))
 	}
-	if nested {
+	if override {
 		return
 	}
 	for _, rf := range refs {
@@ -822,3 +849,73 @@ func c13(c *Ctx) {
 }
 
 func init() { campaigns["C13"] = c13 }
+
+// c13AttrTie: the attribute lines of the scenario seen from ONE path holding raw content (model AttrFilter):
+// does fsck name the path exactly when the model's fsckSays holds, and does the harness's reading of the lines
+// (which line's pattern matches the path) give Git's own verdict (`git check-attr`) under the model's gitSays?
+func c13AttrTie(c *Ctx, enc, p, rootAttrs string, nested, gitTracks, fsckNamed bool) {
+	type src struct{ dir, text string }
+	srcs := []src{{"", rootAttrs}}
+	if nested {
+		srcs = append(srcs, src{"sub/", "*.raw filter=lfs -text\n"})
+	}
+	var bits []string
+	for _, sc := range srcs {
+		if !strings.HasPrefix(p, sc.dir) {
+			continue
+		}
+		rel := strings.TrimPrefix(p, sc.dir)
+		for _, l := range strings.Split(strings.TrimSpace(sc.text), "\n") {
+			f := strings.Fields(l)
+			if len(f) < 2 {
+				continue
+			}
+			pat := f[0]
+			hit := false
+			if strings.Contains(pat, "/") {
+				hit, _ = path.Match(pat, rel)
+			} else {
+				hit, _ = path.Match(pat, path.Base(rel))
+			}
+			hasFilter, isLfs := false, false
+			for _, a := range f[1:] {
+				switch {
+				case a == "filter=lfs":
+					hasFilter, isLfs = true, true
+				case a == "-filter" || a == "!filter" || strings.HasPrefix(a, "filter="):
+					hasFilter, isLfs = true, false
+				}
+			}
+			b := func(x bool) string {
+				if x {
+					return "1"
+				}
+				return "0"
+			}
+			bits = append(bits, b(hit)+b(hasFilter)+b(isLfs))
+		}
+	}
+	line := "C13 attr " + joinOrDash(bits)
+	ans, err := c.Or.Ask([]string{line})
+	if err != nil || len(ans) != 1 {
+		return
+	}
+	c.R.Count("fsck.attr-tie")
+	var mf, mg int
+	if _, err := fmt.Sscanf(ans[0], "fsck=%d git=%d", &mf, &mg); err != nil {
+		c.R.Add(Finding{Kind: "diff", What: "attribute model: unreadable answer", Case: enc, Model: ans[0] + " <= " + line, Broken: "corr.C13.attr"})
+		return
+	}
+	if (mg == 1) != gitTracks {
+		c.R.Add(Finding{Kind: "diff", What: "attribute model: Git's verdict on a path (git check-attr filter) differs from the model's last-matching-line rule on the harness's reading of the lines", Case: enc,
+			Impl: fmt.Sprintf("%s: git tracks=%v", p, gitTracks), Model: ans[0] + " <= " + line, Broken: "corr.C13.attr"})
+	}
+	if (mf == 1) != fsckNamed {
+		sig := ""
+		if mg == 1 && mf == 0 {
+			sig = "D21" // cannot happen: then the model agrees with fsck; kept for symmetry
+		}
+		c.R.Add(Finding{Kind: "diff", What: "fsck --pointers: a path holding raw content is named or not named differently from the model's include/exclude rule over the attribute lines", Case: enc,
+			Impl: fmt.Sprintf("%s: named=%v", p, fsckNamed), Model: ans[0] + " <= " + line, Broken: "corr.C13.attr", Sig: sig})
+	}
+}
